@@ -260,6 +260,31 @@ func checkC20(c *core.Ctx) {
 	tg := &TGen{R: rng}
 	qg := &QGen{R: rng, MaxDepth: 3}
 	sg := &SGen{R: rng, Q: &QGen{R: rng, MaxDepth: 2}}
+	// hand-written unlexable inputs: multi-byte text before every kind of line terminator, inside block
+	// strings, comments and ignored text, then an error early on the following line
+	for _, in := range []string{
+		"\"\"\"éé日本語\r\nab", "\"\"\"éé日本語\rab", "\"\"\"éé日本語\nab", "\"\"\"\U0001F600\U0001F600\r\n\x01", "\"\"\"日本\r\n日本\r\n\"\"\" ?",
+		"# éé日本語\r\n?", "# éé日本語\r?", "\"éé日本語\" \r\n\"x", "\ufeff\ufeff\r\n'", "a # \U0001F600\n\"\\q\"", "\"\"\"é\r\n\"\"\"\r\n..",
+		"\"\"\"日\n本\r語\r\né\"\"\"\"\"\"\"\"\"\"x",
+	} {
+		lx := lexer.New(&ast.Source{Name: "lex.graphql", Input: in})
+		for k := 0; k < 50; k++ {
+			t, err := lx.ReadToken()
+			if err != nil {
+				add("lex", err, nil, []string{"lex.graphql"}, fmt.Sprintf("input %q", in))
+				break
+			}
+			if t.Kind == lexer.EOF {
+				break
+			}
+		}
+		if _, err := parser.ParseQuery(&ast.Source{Name: "q.graphql", Input: in}); err != nil {
+			add("parse", err, nil, []string{"q.graphql"}, fmt.Sprintf("query %q", in))
+		}
+		if _, err := parser.ParseSchema(&ast.Source{Name: "s.graphql", Input: in}); err != nil {
+			add("parse", err, nil, []string{"s.graphql"}, fmt.Sprintf("schema %q", in))
+		}
+	}
 	for i := 0; i < n; i++ {
 		// lexer
 		in := GenLexInput(rng, 3+rng.Intn(10)) + []string{"?", "\"abc", "\"\\q\"", "1.", "..", "\x01", "\"\"\"x", "0x", "-", "'a'"}[rng.Intn(10)]
